@@ -31,6 +31,63 @@ impl Regex {
         })
     }
 
+    #[cfg(regexml_verif)]
+    fn new_unoptimized(re: &str, flags: &str, language: Language) -> Result<Self, Error> {
+        let re_flags = ReFlags::new(flags, language)?;
+        let pattern = re.chars().collect();
+        let mut re_compiler = ReCompiler::new(pattern, re_flags);
+        re_compiler.unoptimized = true;
+        let re_program = re_compiler.compile()?;
+        let mut matcher = ReMatcher::new(&re_program, "");
+        let matches_empty_string = matcher.is_match();
+        Ok(Self {
+            re_program,
+            matches_empty_string,
+        })
+    }
+
+    /// Verification hook: like [`Regex::xpath`], but the pattern is compiled
+    /// without `Operation::optimize` and without any of the search shortcuts
+    /// (prefix, initial character class, minimum length, preconditions,
+    /// start-anchor fast path).
+    #[cfg(regexml_verif)]
+    pub fn xpath_unoptimized(re: &str, flags: &str) -> Result<Self, Error> {
+        Self::new_unoptimized(re, flags, Language::XPath)
+    }
+
+    /// Verification hook: like [`Regex::xsd`], without optimizations.
+    #[cfg(regexml_verif)]
+    pub fn xsd_unoptimized(re: &str, flags: &str) -> Result<Self, Error> {
+        Self::new_unoptimized(re, flags, Language::XSD)
+    }
+
+    /// Verification hook: the facts the search loop relies on, as
+    /// (prefix, has initial class, minimum length, number of preconditions,
+    /// optimization flags, matches empty string).
+    #[cfg(regexml_verif)]
+    pub fn verif_facts(&self) -> (Option<String>, bool, usize, usize, u32, bool) {
+        (
+            self.re_program
+                .prefix
+                .as_ref()
+                .map(|p| p.iter().collect::<String>()),
+            self.re_program.initial_char_class.is_some(),
+            self.re_program.minimum_length,
+            self.re_program.preconditions.len(),
+            self.re_program.optimization_flags,
+            self.matches_empty_string,
+        )
+    }
+
+    /// Verification hook: membership in the initial character class, if any.
+    #[cfg(regexml_verif)]
+    pub fn verif_initial_class_contains(&self, c: char) -> Option<bool> {
+        self.re_program
+            .initial_char_class
+            .as_ref()
+            .map(|cc| cc.contains(c))
+    }
+
     /// Create a regular expression from a string, using XPath 3.1 rules.
     pub fn xpath(re: &str, flags: &str) -> Result<Self, Error> {
         Self::new(re, flags, Language::XPath)
